@@ -22,6 +22,7 @@ type Query struct {
 	Cover   bool        // cover query: expected SAT (reachability); Goal is the condition to reach
 	Text    string      // clause text / operand text
 	Label   string      // clause label
+	Scope   int         // assumption scope the obligation belongs to (function literal verified at its creation site)
 	Short   bool        // not claimed in the ledger: attempted with a short timeout on the primary solver only
 }
 
@@ -44,6 +45,7 @@ type Unit struct {
 	Name      string
 	tb        *TB
 	assumes   []*Term
+	scopes    []int // per assumption (nil: all global)
 	queries   []*Query
 	timeoutMs int
 	hints     []*Term // extra constraints used only when asking for a counterexample (make models replayable)
@@ -90,9 +92,36 @@ func (u *Unit) scriptH(solver string, idx []int, models bool, hints bool) string
 		p.Assert(a)
 	}
 	nAsserted := 0
+	inScope := 0
+	var savedDefs map[int]string
 	for _, qi := range idx {
 		q := u.queries[qi]
+		if inScope != 0 && q.Scope != inScope {
+			sb.WriteString("(pop 1)\n")
+			p.defined = savedDefs // definitions made inside the scope are gone
+			inScope = 0
+		}
 		for nAsserted < q.NAssume {
+			sc := 0
+			if nAsserted < len(u.scopes) {
+				sc = u.scopes[nAsserted]
+			}
+			if sc != 0 && sc != q.Scope {
+				nAsserted++ // belongs to the body of another function literal
+				continue
+			}
+			if sc != 0 && inScope != sc {
+				if inScope != 0 {
+					sb.WriteString("(pop 1)\n")
+					p.defined = savedDefs
+				}
+				sb.WriteString("(push 1)\n")
+				savedDefs = make(map[int]string, len(p.defined))
+				for k, v := range p.defined {
+					savedDefs[k] = v
+				}
+				inScope = sc
+			}
 			p.Assert(u.assumes[nAsserted])
 			nAsserted++
 		}
